@@ -765,7 +765,8 @@ func replyOfflineTopicGetSub(sess *Session, msg *ClientComMessage) {
 		if (ssub.ModeGiven & ssub.ModeWant).IsReader() && (ssub.ModeWant & ssub.ModeGiven).IsJoiner() {
 			sub.DelId = ssub.DelId
 			sub.ReadSeqId = ssub.ReadSeqId
-			sub.RecvSeqId = ssub.RecvSeqId
+			// A read message is a received message: the stored received mark may lag.
+			sub.RecvSeqId = max(ssub.RecvSeqId, ssub.ReadSeqId)
 		}
 	} else {
 		sub.DeletedAt = ssub.DeletedAt
